@@ -46,6 +46,7 @@ type person struct {
 	Meta  map[string]interface{}
 	Pat   string
 	Seen  int64 // an instant, as Unix seconds
+	Idx   int   // which object this is
 }
 
 // workloadLimit: a workload takes seconds; one that has not finished after
@@ -74,7 +75,7 @@ var metaPool = func() []map[string]interface{} {
 func personFor(i int) person {
 	names := []string{"Steve", "bob", "Alice", "re: hello", "Zoë", "x"}
 	return person{Name: names[i%len(names)], Age: 10 + (i*7)%60, Tags: []string{"a", fmt.Sprint(i % 5)}, Email: fmt.Sprintf("u%d@example.com", i%9), Meta: metaPool[i%len(metaPool)], Pat: fmt.Sprintf("^u%d@", i%9),
-		Seen: 1700000000 + int64(i)*100003}
+		Seen: 1700000000 + int64(i)*100003, Idx: i}
 }
 
 // withFreshPattern gives the object a pattern no run has used before (it
@@ -108,7 +109,7 @@ func objectFor(i int) interface{} {
 	case 1:
 		return &p
 	case 2:
-		return map[string]interface{}{"Name": p.Name, "Age": p.Age, "Tags": p.Tags, "Email": p.Email, "Meta": p.Meta, "Pat": p.Pat, "Seen": p.Seen}
+		return map[string]interface{}{"Name": p.Name, "Age": p.Age, "Tags": p.Tags, "Email": p.Email, "Meta": p.Meta, "Pat": p.Pat, "Seen": p.Seen, "Idx": p.Idx}
 	}
 	return p
 }
@@ -124,6 +125,8 @@ var sharedScripts = []string{
 	`count = count + 1; n = 0; foreach t in Tags { n = n + len(t); } return n > 1 && between(Age, 10, 40);`,
 	`count++; return count;`,
 	`count = count + 1; return replace(Name, /[aeiou]/, "_") != Name;`,
+	`count++; ok = note(Idx, Name, Age); return ok && Age > 30;`,
+	`function keep(a, b, c) { return note(a, b, c); } count = count + 1; foreach t in Tags { r = keep(Idx, Name, Age); } return len(Name) > 3;`,
 	`count++; return hour(Seen) > 11 || weekday(Seen) == "Monday" || day(Seen) + month(Seen) == 20;`,
 	// runs that fail for some objects, inside loop and function scopes
 	`count++; foreach t in Tags { if ( t == "3" ) { return 1 % (len(t) - 1); } } return Age > 30;`,
@@ -133,6 +136,8 @@ var sharedScripts = []string{
 	`count++; d = Meta["deep"]; return d["n"] + len(Meta) > 7;`,
 	`count = count + 1; n = 0; foreach k, v in Meta { n = n + len(string(v)); } return n % 2 == 0 && Meta["also"]["deep"]["s"] == "v2";`,
 }
+
+const feeScript = `function fee(a) { return a + 2 * 3 + 60 * 60 - 10 / 2; } function twice(a) { return fee(a) * (1 + 1); } return [fee(Age), twice(Age), 24 * 60];`
 
 var ownScripts = []string{
 	`return Name ~= /^s/i;`,
@@ -157,6 +162,9 @@ var ownScripts = []string{
 	`return [len(keys(BigHash)), keys(BigHash)[3], "k7" in keys(BigHash), len(string(BigHash))];`,
 	`s = string(BigHash); return [len(s), s ~= /k59/, type(BigHash[Name])];`,
 	`n = 0; foreach c in BigWord { n++; } return [n, BigWord[2], "w1" in BigWord, upper(BigWord), BigNumber + Age, BigFloat * 2];`,
+	// a function whose body the optimizer rewrites (several goroutines
+	// prepare this very text at the same moment)
+	feeScript,
 	// the parts of an instant (another one for every object)
 	`return [hour(Seen), minute(Seen), seconds(Seen), day(Seen), month(Seen), year(Seen), weekday(Seen)];`,
 	`return hour(Seen) * 60 + minute(Seen) > 700 || weekday(Seen) == "Monday";`,
@@ -251,9 +259,17 @@ func runWorkload(w *Workload) error {
 	verdict := map[int]bool{}
 	fails := map[int]bool{}
 	countSensitive := false
+	var filed sync.Map
+	noteFn := func(args []object.Object) object.Object {
+		if len(args) >= 1 {
+			filed.Store(args[0].Inspect(), args)
+		}
+		return &object.Boolean{Value: true}
+	}
 	if w.Shared != "" {
 		ref := evalfilter.New(w.Shared)
 		ref.SetVariable("count", &object.Integer{Value: 0})
+		ref.AddFunction("note", noteFn)
 		if err := ref.Prepare(); err != nil {
 			return fmt.Errorf("harness: %v", err)
 		}
@@ -265,6 +281,25 @@ func runWorkload(w *Workload) error {
 		}
 		shared = evalfilter.New(w.Shared)
 		shared.SetVariable("count", &object.Integer{Value: 0})
+		// a host function that files what it is given (the list itself) under the
+		// caller's ticket: the caller looks at it again once its own Run is back
+		shared.AddFunction("note", noteFn)
+		checkFiled := func(i int) error {
+			v, ok := filed.Load(fmt.Sprint(i))
+			if !ok {
+				return nil
+			}
+			args := v.([]object.Object)
+			p := personFor(i)
+			if len(args) != 3 || args[0].Inspect() != fmt.Sprint(i) || args[1].Inspect() != p.Name || args[2].Inspect() != fmt.Sprint(p.Age) {
+				parts := []string{}
+				for _, a := range args {
+					parts = append(parts, a.Inspect())
+				}
+				return fmt.Errorf("shared evaluator: the host function filed the arguments (%d, %s, %d) for object %d; looked at again after Run returned they read (%s)", i, p.Name, p.Age, i, strings.Join(parts, ", "))
+			}
+			return nil
+		}
 		if err := shared.Prepare(); err != nil {
 			return fmt.Errorf("harness: %v", err)
 		}
@@ -278,6 +313,10 @@ func runWorkload(w *Workload) error {
 					got, err := shared.Run(objectFor(i))
 					if (err != nil) != fails[i] {
 						errs <- fmt.Errorf("shared evaluator: object %d: Run returned error %v concurrently, but failed=%v sequentially", i, err, fails[i])
+						return
+					}
+					if ferr := checkFiled(i); ferr != nil {
+						errs <- ferr
 						return
 					}
 					if err != nil {
@@ -451,7 +490,13 @@ func TestC11ColdWorker(t *testing.T) {
 		go func(g int) {
 			defer wg.Done()
 			<-start
-			e := evalfilter.New(ownScripts[g%len(ownScripts)])
+			script := ownScripts[g%len(ownScripts)]
+			if g%4 == 0 {
+				// every fourth goroutine prepares one and the same text, with
+				// functions the optimizer rewrites: the answers are known
+				script = feeScript
+			}
+			e := evalfilter.New(script)
 			for name, o := range hostVars {
 				e.SetVariable(name, o)
 			}
@@ -460,9 +505,17 @@ func TestC11ColdWorker(t *testing.T) {
 				return
 			}
 			for k := 0; k < 5; k++ {
-				if _, err := e.Execute(objectFor(g + k)); err != nil {
+				out, err := e.Execute(objectFor(g + k))
+				if err != nil {
 					errs <- fmt.Errorf("goroutine %d: %v", g, err)
 					return
+				}
+				if script == feeScript {
+					age := personFor(g + k).Age
+					if want := fmt.Sprintf("[%d, %d, 1440]", age+3601, 2*(age+3601)); out.Inspect() != want {
+						errs <- fmt.Errorf("goroutine %d: %s gave %s for Age %d, expected %s", g, "the script every fourth goroutine prepares", out.Inspect(), age, want)
+						return
+					}
 				}
 			}
 		}(g)
